@@ -75,7 +75,7 @@ Theorem c04_spec_holds : forall E,
   run_top E C fault manual p extra (init_st []) = (o, x, s) ->
   scoped [] p = true ->
   x_rb (s_fl s) = false -> x_drop (s_fl s) = false ->
-  spec_holds (mk_case manual p extra C None o x (s_db s)
+  spec_holds (mk_case manual p extra [] C None o x [] (s_db s)
                 (fst (pool E (rev (s_txlog s)))) (snd (pool E (rev (s_txlog s)))) (rev (s_ops s))) = true.
 Proof. exact spec_holds_model. Qed.
 Print Assumptions c04_spec_holds.
